@@ -5,8 +5,31 @@
 package document
 
 import (
+	"github.com/yorkie-team/yorkie/api/converter"
 	"github.com/yorkie-team/yorkie/internal/zzvsym"
 )
+
+// vRebuildable: a collected document can still be rebuilt -- as a snapshot
+// (what joins, server snapshots and BuildInternalDocForServerSeq do) and as a
+// deep copy (what Document.ensureClone does after a rejected update) -- and
+// the rebuilt copy shows the same content. Purging must leave no reference to
+// a purged node behind.
+func vRebuildable(d *InternalDocument, tag string) {
+	bytes, err := converter.SnapshotToBytes(d.RootObject(), d.AllPresences())
+	zzvsym.Assert(err == nil, tag+"-snapshot-encode-no-error")
+	if err == nil {
+		obj, _, err := converter.BytesToSnapshot(bytes)
+		zzvsym.Assert(err == nil, tag+"-snapshot-decode-no-error")
+		if err == nil {
+			zzvsym.Assert(obj.Marshal() == d.Marshal(), tag+"-snapshot-reproduces-content")
+		}
+	}
+	cp, err := d.Root().DeepCopy()
+	zzvsym.Assert(err == nil, tag+"-deep-copy-no-error")
+	if err == nil {
+		zzvsym.Assert(cp.Object().Marshal() == d.Marshal(), tag+"-deep-copy-reproduces-content")
+	}
+}
 
 // vTwin is one universe of the twin run: the same script is executed with
 // garbage collection enabled and disabled.
@@ -90,5 +113,8 @@ func VerifR4GCTwin() {
 	// server rebuild with GC before snapshot equals the clients
 	sd := g.s.vServerDoc(nil, 0, len(g.s.log), true)
 	zzvsym.Assert(sd.Marshal() == g.a.Marshal(), "server-gc-rebuild-equals-clients")
+	vRebuildable(g.a.InternalDocument(), "collected-A")
+	vRebuildable(g.b.InternalDocument(), "collected-B")
+	vRebuildable(sd, "collected-server")
 	zzvsym.Observe(g.a.Marshal(), g.a.GarbageLen() <= n.a.GarbageLen())
 }
